@@ -43,7 +43,7 @@ func srcOf(names []string, r *rand.Rand) []byte {
 
 func runC16(c *Ctx) error {
 	nG := c.Pick(20, 200)
-	nH := c.Pick(60, 300)
+	nH := c.Pick(100, 300)
 	c.Rule = "parsers: histories of 2-6 consecutive Parse calls on one Parser object (inputs drawn from valid, failing, recovering and action-error cases, fed by token name or through the generated lexer) - every call's complete observation (event log, result, error token/type/literal/position, expected list, custom error) must equal that of a fresh parser on the same input; lexers: scan k tokens of a multi-line source, Reset, scan everything - tokens and positions must equal a fresh lexer's; non-trivial = history whose earlier calls include at least one failing or recovering parse / reset after at least one token; distinct by (grammar, history)"
 	c.Assumptions = []string{"a fresh object's behaviour is the oracle (C02-C08 judge that behaviour itself)"}
 	rng := c.Rng
@@ -67,11 +67,29 @@ func runC16(c *Ctx) error {
 			hr := &histRef{job: j}
 			for k := 0; k < n; k++ {
 				in := pool[inRng.Intn(len(pool))]
+				if k > 0 && inRng.Intn(3) == 0 {
+					// the same input again (or an earlier one): the same error state is reached twice on one object
+					prev := hr.items[inRng.Intn(len(hr.items))]
+					if !prev.UseSrc {
+						if ids, ok := j.IDs(prev.Toks); ok {
+							in = ids
+						}
+					}
+				} else if inRng.Intn(2) == 0 {
+					// prefer inputs that fail or recover: they leave most behind in the object
+					for try := 0; try < 6; try++ {
+						cand := pool[inRng.Intn(len(pool))]
+						if m := j.LR.Parse(cand, model.ParseOpts{FailAt: -1}); !m.Accepted || m.Recoveries > 0 {
+							in = cand
+							break
+						}
+					}
+				}
 				it := HistItem{Toks: j.Names(in), Fail: -1}
 				if inRng.Intn(5) == 0 {
 					it.Fail = inRng.Intn(4)
 				}
-				it.Render = inRng.Intn(2) == 0
+				it.Render = inRng.Intn(4) > 0
 				if inRng.Intn(4) == 0 {
 					it.UseSrc = true
 					it.Src = srcOf(it.Toks, inRng)
